@@ -664,6 +664,9 @@ def j_assert(facts, b, bi, t):
                 g = guarded_sub(b, bi, s["rv"])
                 if g:
                     return "J1 guard: unsigned a - b where " + g
+                a_, b_ = strip_payload(b.trace(s["rv"]["a"])), strip_payload(b.trace(s["rv"]["b"]))
+                if a_[0] == "call" and a_[1] and a_[1]["path"] in STR_LEN and a_[2] and _own_char_width(b_, strip_refs(a_[2][0])) in ("first", "last"):
+                    return "J1 own character: s.len() minus the UTF-8 width of a character of s itself (a string is at least as long as one of its characters)"
         return None
     if msg in ("DivisionByZero", "RemainderByZero"):
         # cond = Eq(divisor, 0) expected false; find divisor in the BinaryOp that follows
@@ -740,6 +743,30 @@ def _ascii_prefix(b, at, recv, k):
     return None
 
 
+def _same_string(x, recv):
+    """x denotes the string recv: the same expression, or the same multi-definition (loop-carried) local."""
+    x = strip_refs(x)
+    return x == recv or (x[0] == "phi" and recv[0] == "phi" and x[1] == recv[1])
+
+
+def _own_char_width(e, recv):
+    """"first" / "last" when e is `c.len_utf8()` with c the payload of `chars(recv).next()` / `.next_back()`, else None."""
+    e = strip_refs(e)
+    if not (e[0] == "call" and e[1] and e[1]["path"].endswith("char::methods::<impl char>::len_utf8") or (e[0] == "call" and e[1] and e[1]["path"].endswith("::len_utf8"))):
+        return None
+    c = strip_refs(e[2][0]) if e[2] else None
+    if c is None or not (c[0] == "field" and c[2] == 0 and isinstance(c[1], tuple) and c[1][0] == "downcast" and c[1][2] == "Some"):
+        return None
+    nx = strip_refs(c[1][1])
+    if not (nx[0] == "call" and nx[1] and nx[2]):
+        return None
+    which = "first" if nx[1]["path"].endswith("Iterator>::next") and "Chars" in nx[1]["path"] else ("last" if nx[1]["path"].endswith("::next_back") and "Chars" in nx[1]["path"] else None)
+    it = strip_refs(nx[2][0])
+    if which and it[0] == "call" and it[1] and it[1]["path"] == "core::str::<impl str>::chars" and it[2] and _same_string(it[2][0], recv):
+        return which
+    return None
+
+
 def str_offset(facts, b, at, recv, e, depth=0):
     """Why the integer expression e is a char-boundary offset (<= len) of the string expression recv, or None."""
     if depth > 6:
@@ -761,6 +788,16 @@ def str_offset(facts, b, at, recv, e, depth=0):
         return None
     if e1[0] == "call" and e1[1] and e1[1]["path"] in STR_LEN and strip_refs(e1[2][0]) == recv:
         return "the string's own len()"
+    # the width of the string's own first character is the boundary after it; its length minus the width of its own last
+    # character is the boundary before that one (`rest[c.len_utf8()..]` with c = rest.chars().next(), and the mirror image)
+    w_ = _own_char_width(e1, recv)
+    if w_ == "first":
+        return "the UTF-8 width of the string's own first character"
+    if e1[0] == "binop" and e1[1] in ("Sub", "SubWithOverflow", "SubUnchecked") or (e1[0] == "field" and e1[2] == 0 and isinstance(e1[1], tuple) and e1[1][0] == "binop" and e1[1][1] == "SubWithOverflow"):
+        bo = e1 if e1[0] == "binop" else e1[1]
+        a_, b_ = strip_payload(bo[2]), strip_payload(bo[3])
+        if a_[0] == "call" and a_[1] and a_[1]["path"] in STR_LEN and _same_string(a_[2][0], recv) and _own_char_width(b_, recv) == "last":
+            return "the string's own len() minus the UTF-8 width of its own last character"
     if e1[0] == "call" and e1[1] and STR_SEARCH.match(e1[1]["path"]) and strip_refs(e1[2][0]) == recv:
         return "the position %s reports for the same string" % e1[1]["path"].rsplit("::", 1)[-1]
     if e1[0] == "field" and e1[2] == 0:
